@@ -75,7 +75,8 @@ Inductive expr :=
 | EIdx (a : expr) (i : expr)                 (* a[i], i computed (negative: from the end) *)
 | ESliceTo (a : expr) (k : Z)                (* a[:k]  (k = -1: all but the last; k >= 0: first k) *)
 | ESliceFrom (a : expr) (k : Z)              (* a[k:], k >= 0 *)
-| ECallStar (f : string) (args : list expr) (star : expr).   (* f(args, *star): the elements of the sequence star are further positional arguments *)
+| ECallStar (f : string) (args : list expr) (star : expr)    (* f(args, *star): the elements of the sequence star are further positional arguments *)
+| ESliceToE (a : expr) (k : expr).           (* a[:k], k computed and >= 0 (a negative k counts from the end: outside the fragment) *)
 
 Inductive stmt :=
 | SAssign (targets : list string) (e : expr)     (* x = e ; a, b = e *)
@@ -772,6 +773,20 @@ Fixpoint eval (env : list (string * val)) (e : expr) {struct e} : option (option
           end
       | Some None => Some None
       | None => None
+      end
+  | ESliceToE a k =>
+      match eval env a, eval env k with
+      | Some (Some v), Some (Some (VZ n)) =>
+          if (n <? 0)%Z then None else
+          match v with
+          | VL l => ret (VL (firstn (Z.to_nat n) l))
+          | VT l => ret (VT (firstn (Z.to_nat n) l))
+          | VA l => ret (VA (firstn (Z.to_nat n) l))
+          | _ => None
+          end
+      | Some None, _ => Some None
+      | Some (Some _), Some None => Some None
+      | _, _ => None
       end
   end.
 
